@@ -3,7 +3,7 @@ from hypothesis import strategies as st
 
 import odml
 
-from .. import hyp, snap
+from .. import env, hyp, snap
 from ..core import failure
 
 PROPERTY = "C13"
@@ -532,7 +532,12 @@ def run(shard, seed, ctx):
         for j, case in enumerate(table_cases()):
             if j % shard["of"] != shard["i"]:
                 continue
-            raised, fails = table_body(case)
+            try:
+                with env.watchdog():
+                    raised, fails = table_body(case)
+            except env.CaseHang:
+                raised, fails = None, [failure("hang.no_return", "merge did not return within %d s"
+                                               % env.HANG_SECONDS)]
             deep = len(case["pos"]) >= 2
             unmatched = ctx.case(case, deep, ["table:%s=%s" % (case["key"], case["value"]),
                                               "table:" + ("raised" if raised is not None else "merged")],
